@@ -73,6 +73,7 @@ type Scenario struct {
 	Tee       int       `json:"tee"`      // 0 off, 1 in, 2 out, 3 both
 	Silent    bool      `json:"silent"`   // after the cancellation the peer sends nothing more (and does not close)
 	WS        bool      `json:"ws"`       // WebSocket framing (RFC 7395): <open/> instead of <stream:stream>
+	Prior     bool      `json:"prior"`    // the Negotiator value has negotiated another session before (see priorMode)
 }
 
 var pool = map[string]Kind{}
@@ -407,6 +408,11 @@ type featCollector struct {
 	list []interface{}
 }
 
+// priorMode: the Negotiator value of the scenario has negotiated ANOTHER session before (with a configuration
+// function that extends the previous configuration, as documented, by what the session at hand needs): nothing of
+// that session - its features, its tee - may show in the session under test.
+var priorMode bool
+
 func runScenario(sc Scenario) []vt.Ev {
 	r := &run{sc: sc, lg: &vt.Log{StopAfter: "return"}, conn: vt.NewConn()}
 	var fc featCollector
@@ -471,9 +477,72 @@ func runScenario(sc Scenario) []vt.Ev {
 	cfgf := func(*xmpp.Session, *xmpp.StreamConfig) xmpp.StreamConfig {
 		return xmpp.StreamConfig{Features: feats, TeeIn: teeIn, TeeOut: teeOut}
 	}
+	inPrior := false
+	if priorMode {
+		decoy := xmpp.StreamFeature{
+			Name: nameOf("decoy"),
+			List: func(ctx context.Context, e xmlstream.TokenWriter, start xml.StartElement) (bool, error) {
+				if err := e.EncodeToken(start); err != nil {
+					return false, err
+				}
+				return false, e.EncodeToken(start.End())
+			},
+			Parse: func(ctx context.Context, d *xml.Decoder, start *xml.StartElement) (bool, interface{}, error) {
+				return false, nil, d.Skip()
+			},
+			Negotiate: func(ctx context.Context, s *xmpp.Session, data interface{}) (xmpp.SessionState, io.ReadWriter, error) {
+				return 0, nil, nil
+			},
+		}
+		// "The previous config is passed in at each step so that it can be re-used or modified": keep what the
+		// previous configuration holds and add what this session needs
+		cfgf = func(s *xmpp.Session, prev *xmpp.StreamConfig) xmpp.StreamConfig {
+			cfg := xmpp.StreamConfig{TeeIn: teeIn, TeeOut: teeOut}
+			if prev != nil {
+				cfg.Features = append(cfg.Features, prev.Features...)
+			}
+			if s == nil {
+				return cfg
+			}
+			want := feats
+			if inPrior {
+				want = []xmpp.StreamFeature{decoy}
+			}
+			for _, f := range want {
+				have := false
+				for _, g := range cfg.Features {
+					have = have || g.Name == f.Name
+				}
+				if !have {
+					cfg.Features = append(cfg.Features, f)
+				}
+			}
+			return cfg
+		}
+	}
 	neg := xmpp.NewNegotiator(cfgf)
 	if sc.WS {
 		neg = websocket.Negotiator(cfgf)
+	}
+	if priorMode {
+		// the earlier session of this Negotiator value: the peer sends its header and goes away
+		pc := vt.NewConn()
+		pc.FeedString(r.hdrBytes(Hdr{OK: true, From: "none", To: "none"}))
+		pc.CloseIn()
+		inPrior = true
+		func() {
+			defer func() { _ = recover() }()
+			pst := stateOf(sc.Bits)
+			if sc.S2S {
+				pst |= xmpp.S2S
+			}
+			if sc.Role == "init" {
+				_, _ = xmpp.NewSession(context.Background(), jid.MustParse("example.net"), jid.MustParse("me@example.net"), pc, pst, neg)
+			} else {
+				_, _ = xmpp.ReceiveSession(context.Background(), pc, pst, neg)
+			}
+		}()
+		inPrior = false
 	}
 	state := stateOf(sc.Bits)
 	if sc.S2S {
@@ -664,9 +733,15 @@ func main() {
 	distinct := map[string]bool{}
 	var samples []interface{}
 	runs := 0
-	for _, sc := range scs {
+	for si, sc := range scs {
 		for rep := 0; rep < reps; rep++ {
+			// every other repetition (a single repetition: every third scenario): the Negotiator value has served
+			// another session before
+			priorMode = sc.Prior || ((rep%2 == 1 || (reps == 1 && si%3 == 2)) && os.Getenv("NEG_NOPRIOR") == "")
+			sc := sc
+			sc.Prior = priorMode
 			evs := runScenario(sc)
+			priorMode = false
 			runs++
 			key, _ := json.Marshal(evs)
 			if distinct[string(key)] {
